@@ -22,6 +22,9 @@ from .memtls import make_cert
 
 PEER_DER = make_cert("ec", "client-cert")[2]
 PEER_FP = "sha256:" + hashlib.sha256(PEER_DER).hexdigest()
+PEER_DER2 = make_cert("ec", "client-cert")[2]          # same subject, another key
+IDENTITIES = [(None, ("192.0.2.7", 40000)), (PEER_DER, ("192.0.2.7", 40000)), (PEER_DER2, ("2001:db8::9", 40001, 0, 0)),
+              (None, ("2001:db8::9", 40002, 0, 0)), (PEER_DER, ("198.51.100.3", 40003))]
 BODY = "BODY-SENTINEL-é\n"           # what handlers return as text body
 BODY_B = BODY.encode("utf-8")
 BODY_BYTES = b"\x00\xffBODY-BYTES\r\n"   # bytes body (not valid UTF-8, contains CRLF)
@@ -249,6 +252,7 @@ class ConnHarness:
     """cfg = {'s': stream, 'mw': chain tuple, 'h': {'kind','out'}, 'hasUpload': bool}."""
 
     PEER = ("192.0.2.7", 40000)
+    _connections = 0
 
     def __init__(self, cfg, seed=0, loop=None, middleware=None, handler=None):
         self.cfg = cfg
@@ -268,9 +272,12 @@ class ConnHarness:
         chain = middleware if middleware is not None else (MiddlewareChain(self.components) if self.components else None)
         up = SpyUpload(self) if cfg["hasUpload"] else None
         self.proto = srvproto.GeminiServerProtocol(handler or self._handler, chain, up)
-        self.with_cert = self.rnd.random() < 0.5
-        self.tr = FakeTransport(self.loop, self.proto, peername=self.PEER, auto_lost=False,
-                                peer_der=PEER_DER if self.with_cert else None)
+        # the identity of the peer changes from one connection to the next (the request bytes of a configuration do not):
+        # no certificate / certificate / a look-alike with another key, from changing addresses
+        ConnHarness._connections += 1
+        self.peer_der, self.PEER = IDENTITIES[ConnHarness._connections % len(IDENTITIES)]
+        self.with_cert = self.peer_der is not None
+        self.tr = FakeTransport(self.loop, self.proto, peername=self.PEER, auto_lost=False, peer_der=self.peer_der)
         self.escaped = []          # exceptions that escaped a protocol callback
         v, e = self.loop.call(self.proto.connection_made, self.tr)
         if e:
@@ -387,7 +394,7 @@ class ConnHarness:
     def consulted_ok(self):
         """C04: every component was consulted with the real peer address, the request URL (without Titan
         parameters) and the fingerprint of the certificate actually presented."""
-        want_fp = PEER_FP if self.with_cert else None
+        want_fp = ("sha256:" + hashlib.sha256(self.peer_der).hexdigest()) if self.with_cert else None
         line = self.line.decode("utf-8", "replace")
         for c in self.components:
             if c.seen is None:
